@@ -51,6 +51,34 @@ CHECKS = {
          "The constructor rule is checked on all emptiness/length combinations; sessions in all 4 modes x 48 suites are compared with the reference key schedule fed with the bundle's fields, so swapped or ignored fields are visible.",
          "Trusts the reference key schedule (anchor A.1.2 pins the psk/psk_id roles).",
          "DESIGN.md section 4 C15", "hv"),
+ "C09": ("property-based testing with constructed SEC1/scalar encodings against a validity predicate computed by the harness's own big-integer curve arithmetic; exhaustive tag-byte/length/corner sweeps",
+         "from_bytes must succeed iff the independent predicate holds (length, tag 0x04, x<p, y<p, curve equation; 1<=s<n) with the exact error kind and payload; inputs are built by construction (square roots mod p, x+p, twist and different-b points, every tag byte, every length).",
+         "Trusts the self-checked arithmetic oracle (G on curve, n*G=O, constants equal corpus/curves.json).",
+         "DESIGN.md section 4 C09", "hv"),
+ "C10": ("exhaustive sweep of the 14 small-order X25519 encodings x roles x modes x KDF x AEAD x API + generated near-miss negatives, decided by the harness's own RFC 7748 ladder",
+         "Every small-order encoding in every role must abort setup with EncapError/DecapError on every entry point; generated keys that are not of small order must never be rejected.",
+         "Trusts the ladder, self-checked against RFC 7748 vectors at start-up.",
+         "DESIGN.md section 4 C10", "hv"),
+ "C12": ("round-trip property testing of the 16 serialisable types + exhaustive length sweeps for from_bytes and write_exact (panic observed under catch_unwind)",
+         "Sizes equal the RFC table, library-produced values and accepted byte strings round-trip losslessly and canonically, wrong lengths give IncorrectInputLength(size, len), write_exact panics iff the buffer length differs.",
+         "X25519 private keys are compared up to RFC 7748 clamping, as the property states.",
+         "DESIGN.md section 4 C12", "hv"),
+ "C13": ("robustness property testing: generated malformed and oversized inputs at every byte-consuming entry point under catch_unwind, with debug assertions and overflow checks compiled in; allowed-error-set oracle",
+         "No panic, overflow or abort; each entry point fails only with its allowed error kinds (setup_sender: EncapError, setup_receiver: DecapError, open: OpenError/MessageLimitReached, ...). Every ciphertext length 0..=Nt+17 x 36 suites and every key length swept.",
+         "Inputs near usize::MAX cannot be allocated; documented caller-side panics (write_exact, export-only seal/open) excluded.",
+         "DESIGN.md section 4 C13", "hv"),
+ "C16": ("property testing over suites/modes/roles of the memory image of a dropped value (secrets located through the read-only hook accessors) + drop-ledger hook invariant, single-threaded",
+         "After drop_in_place the bytes that held the base nonce, exporter secret and shared secret are zero; the ledger shows a wiping drop of the temporary AEAD key buffer per setup and no drop that left non-zero bytes. All 48x4x4 cells swept.",
+         "Reads a dropped slot with volatile reads on memory the harness owns; stale copies left by moves in uninitialised union bytes are recorded as an observation, not judged.",
+         "DESIGN.md section 4 C16", "hv"),
+ "C17": ("enumeration of feature subsets (quick: strength-2 covering set; thorough: all 64) with build, API-presence and differential-transcript oracles driven through cargo",
+         "Each subset must compile, expose the in-place API for exactly the enabled KEMs with outputs identical to the full feature set, expose the allocating API iff alloc or std, and pass the crate's unit tests; guard on/off equivalence and hook-API hiding checked once per run. Thorough is exhaustive over the 64 subsets.",
+         "One toolchain/platform; kat_test skipped because its vector file is empty in this tree.",
+         "DESIGN.md section 4 C17", "hv+cargo"),
+ "C18": ("metamorphic property testing over generated multi-session scripts: sequential vs reversed vs interleaved vs cross-thread vs concurrent execution must give identical transcripts; Send+Sync compile probe",
+         "Sessions deliberately share components so caches keyed on part of the inputs are hit; contexts are moved between threads and exported from concurrently; a separate probe crate proves Send + Sync for all public types over 48 suites at compile time.",
+         "Real-thread interleavings are uncontrolled; order dependence is attacked by harness-owned schedules.",
+         "DESIGN.md section 4 C18", "hv+cargo"),
 }
 ALL = ["C%02d" % i for i in range(1, 19)]
 manifest = {
